@@ -1053,7 +1053,7 @@ STREAMS = [
            budget={"quick": 1000, "thorough": 20000}, timeout=10.0, rule=RULE_VERBATIM,
            hang_is_violation=True),
     Stream("fuzz", "fuzz", lambda tier: ("fuzz/C11_target.py", ["-max_len=192"]), check_verbatim,
-           budget={"quick": 1500, "thorough": 30000}, timeout=10.0,
+           budget={"quick": 1000, "thorough": 30000}, timeout=10.0,
            rule=("atheris/libFuzzer coverage-guided campaign per worker (plasTeX instrumented): bytes -> "
                  "verbatim / \\verb case via a total decoder (fragment indices + raw UTF-8 text of the "
                  "property's alphabet; end delimiter destroyed by construction), same oracle inside the "
